@@ -62,7 +62,8 @@ Section Sim.
       destruct (op_read ops1 raw d (x_in x1)) as [[[c1 f1] j1] n1].
       destruct (op_read ops2 raw d (x_in x2)) as [[[c2 f2] j2] n2].
       destruct Hr as [-> [-> [-> Hj]]]. rewrite H1, H2, H3.
-      split; [|reflexivity]. repeat split; assumption.
+      destruct (existsb (fun c => N.eqb (fst c) 0) c2);
+        (split; [|reflexivity]); repeat split; assumption.
     - pose proof HR as [H1 [H2 [H3 H4]]].
       pose proof (slurp_sim _ _ H4) as Hr.
       destruct (op_slurp ops1 (x_in x1)) as [[c1 j1] n1].
